@@ -25,11 +25,11 @@ TEXT = {
     "C01": dict(
         technique=_PT_TECH,
         text="Seeded search over histories (tiny PID ranges force reuse; events fire between calls and just before the n-th procfs access inside a call). The oracle reads the simulated kernel's effects log: every signal/setting caused by a handle must reach the incarnation the handle was created for, with the exact payload; a call on a recycled PID must raise NoSuchProcess and deliver nothing; no kill() with pid <= 0 ever. Sampled, not exhaustive: a clean batch is evidence, not proof.",
-        note=_PT_NOTE + " Handles include psutil.Popen objects whose child is reaped behind their back.", ref="DESIGN.md section 9, C01"),
+        note=_PT_NOTE + " Handles include psutil.Popen objects whose child is reaped behind their back, objects yielded by process_iter(), multi-threaded targets (thread ids are valid sched_setaffinity() targets in the model) and a program that fork()s and goes on in the child.", ref="DESIGN.md section 9, C01"),
     "C02": dict(
         technique=_PT_TECH + "; wall-clock steps as events",
         text="Same histories plus wall-clock steps (the published btime moves) and interleaved boot_time()/create_time()/process_iter(); for every pair of handles ==/hash() must follow (pid, incarnation) and is_running() must follow the incarnation's presence in the table, be sticky once False and never be resurrected by PID reuse. Sampled.",
-        note=_PT_NOTE + " Handles are also built while /proc/<pid>/stat is unreadable and through psutil.Popen (simulated fork). A second leg (threads engine) has 2-3 real threads call is_running()/== on one shared object under the baton scheduler while at most one of them makes the process exit or the PID change hands.", ref="DESIGN.md section 9, C02"),
+        note=_PT_NOTE + " Handles are also built while /proc/<pid>/stat is unreadable and through psutil.Popen (simulated fork); harmless calls (signal 0, SIGCONT, signal numbers refused with EINVAL) are made in between; a few worlds serve the procfs of another PID namespace (kill(2) knows none of its PIDs). A second leg (threads engine) has 2-3 real threads call is_running()/== on one shared object under the baton scheduler while at most one of them makes the process exit or the PID change hands.", ref="DESIGN.md section 9, C02"),
     "C04": dict(
         technique=_PT_TECH + "; overlapping iterators",
         text="Histories of table changes between and during pids()/pid_exists()/process_iter() (complete, partial, with attrs, overlapping generators, cache_clear): listing equality at the listing access, ascending/unique/listed yields, object identity across successive non-overlapping complete iterations, eviction, refresh after is_running() found a recycled PID, eventual coherence after overlap. Sampled.",
@@ -41,7 +41,7 @@ TEXT = {
     "C07": dict(
         technique="deterministic simulation: seeded histories of per-CPU tick tables over a virtual clock (blocking calls sleep in virtual time while tick events fire); exact-rational reference oracle",
         text="Seeded histories of /proc/stat tick tables (sub-second totals, zero deltas, fields going backwards, 7-10 kernel fields, 1-8 CPUs with holes) driven through cpu_times/cpu_percent/cpu_times_percent (blocking and non-blocking, percpu or not) and Process.cpu_percent; the simulator records which /proc/stat version every read returned, and the oracle recomputes each result with fractions from exactly the two samples the call must have used. Sampled.",
-        note="Trusted base: SimKernel's /proc/stat renderer and virtual clock, the seam substitution. Rows where the guest delta exceeds the user delta are only range-checked. The per-thread sample clause is exercised with real interleavings by the threads engine.",
+        note="Trusted base: SimKernel's /proc/stat renderer and virtual clock, the seam substitution. Rows where the guest delta exceeds the user delta are only range-checked. The per-thread sample clause is exercised with real interleavings by the threads engine, which in part of its programs shares one Process object between threads (every answer must follow from the call's own sample and the sample of some other call). Faults: failing /proc/stat reads, CPU hot-plug, clock quiet periods, overshooting sleeps, a signal handler measuring on the same thread during a blocking call's sleep.",
         ref="DESIGN.md section 9, C07"),
     "C10": dict(
         technique="deterministic simulation: seeded histories of raw counter snapshots against a sequential reference model of the nowrap statement",
@@ -51,7 +51,7 @@ TEXT = {
     "C14": dict(
         technique="deterministic simulation: descriptor-table events injected at chosen OS access indexes of open_files() over a simulated /proc/<pid>/fd",
         text="Per seeded descriptor table a fault-free run numbers the accesses of open_files(); seeded runs then close/open descriptors (and sometimes kill or zombify the process) right before chosen accesses. For a live process the call must return; every entry must agree with the descriptor's kernel state (path, fd, offset, flags, mode string); every regular-file descriptor that stayed open must be listed once. num_fds()/io_counters() are compared with the table/the six counters. Sampled.",
-        note="Trusted base: SimKernel fd/fdinfo/io renderers. Mode string for access mode 3 is not judged; deleted targets judged for soundness only. A second leg (threads engine) runs open_files()/num_fds()/io_counters() from 2-3 real threads on an unchanging table against the single-threaded answers.",
+        note="Trusted base: SimKernel fd/fdinfo/io renderers. Mode string for access mode 3 is not judged; deleted targets judged for soundness only. Further plans: a second call inside/outside one oneshot() block after the table changed, an unreadable fdinfo record, psutil.PROCFS_PATH reassigned after the object was built, the target being the parent of a program that fork()ed after importing psutil. A second leg (threads engine) runs open_files()/num_fds()/io_counters() from 2-3 real threads on an unchanging table against the single-threaded answers.",
         ref="DESIGN.md section 9, C14"),
     "C15": dict(
         technique="deterministic simulation on a discrete-event virtual clock: exit instants placed relative to psutil's poll schedule and the deadline, EINTR injected at chosen waitpid calls",
@@ -70,7 +70,7 @@ TEXT = {
         ref="DESIGN.md section 9, C19"),
     "C20": dict(
         technique="deterministic simulation of the non-Linux platform layers on Linux: fresh interpreter per platform identity under faked sys.platform/os.name, table-driven stub native modules, errno injected at every per-process native/procfs call (enumerated), stub process table kept consistent",
-        text="For each of FreeBSD, OpenBSD, NetBSD, macOS, Solaris, AIX and Windows the real platform module and the platform-conditional front end are imported over stub native modules whose records carry a distinct value per slot in the order of the C sources. Every Process method (pid ordinary / 0 / low, live / zombie, with and without a cached name) runs fault-free (layout check against the C slot order, Windows permission fallbacks against proc_info slots) and then once per (per-process native or procfs call, errno) with the pid turned absent or zombie for 'no such process' errnos: the outcome must be a value, NoSuchProcess (absent) / ZombieProcess (listed zombie) / AccessDenied (permission class) with pid and cached name, or the same error passed through. net_if_addrs front-end post-processing and the documented per-platform names are checked too. Exhaustive over (platform, method, call, errno) in both tiers; thorough adds sampled double faults.",
+        text="For each of FreeBSD, OpenBSD, NetBSD, macOS, Solaris, AIX and Windows (plus Windows 7, where the 8.1+ native fallbacks are missing, and two AIX builds of the extension without optional libperfstat interfaces) the real platform module and the platform-conditional front end are imported over stub native modules whose records carry a distinct value per slot in the order of the C sources. Every Process method (pid ordinary / 0 / low, live / zombie, with and without a cached name) runs fault-free (layout check against the C slot order, Windows permission fallbacks against proc_info slots) and then once per (per-process native or procfs call, errno) with the pid turned absent or zombie for 'no such process' errnos: the outcome must be a value, NoSuchProcess (absent) / ZombieProcess (listed zombie) / AccessDenied (permission class) with pid and cached name, or the same error passed through. net_if_addrs front-end post-processing and the documented per-platform names are checked too. Exhaustive over (platform, method, call, errno) in both tiers; thorough adds sampled double faults.",
         note="Trusted base: the stub tables in sim/engines/foreign.py (function inventories and slot orders transcribed from psutil/_psutil_*.c and psutil/arch/*), the seam substitution. The C code itself is not executed. Methods that shell out (Solaris pfiles part of net_connections('unix'/'all'), AIX open_files) and OpenBSD exe() are not simulated. Faults are not injected into system-wide native calls nor into psutil's own zombie/existence probes after a first failure.",
         ref="DESIGN.md section 9, C20"),
     "C03": dict(
